@@ -756,6 +756,9 @@ fn write_project(rng: &mut Rng, dir: &Path) -> Vec<String> {
         }
         std::fs::create_dir_all(dir.join("src")).unwrap();
         std::fs::write(dir.join("src/wide_warn.rs"), s).unwrap();
+        // ignored lines (they count in `total` only)
+        std::fs::write(dir.join("src/ign.rs"), "let a = 1;\n// sloc-guard:ignore-next 2\nlet b = 2;\nlet c = 3;\nlet d = 4;\n").unwrap();
+        files.push("src/ign.rs".to_string());
     }
     let reason = rng.pick(REASONS).replace('\\', "\\\\").replace('"', "\\\"").replace('\n', "\\n");
     let sreason = rng.pick(REASONS).replace('\\', "\\\\").replace('"', "\\\"").replace('\n', "\\n");
@@ -764,6 +767,12 @@ fn write_project(rng: &mut Rng, dir: &Path) -> Vec<String> {
         cfg += "[languages.zed]\nextensions = [\"aa\", \"q\"]\nsingle_line_comments = [\"#\"]\n[languages.abc]\nextensions = [\"aa\", \"bb\"]\nsingle_line_comments = [\"//\"]\n[languages.mno]\nextensions = [\"bb\"]\nsingle_line_comments = [\";\"]\n";
     }
     std::fs::write(dir.join(".sloc-guard.toml"), cfg).unwrap();
+    // old enough to be cached by the first run that uses the cache
+    for f in &files {
+        if let Ok(h) = std::fs::OpenOptions::new().write(true).open(dir.join(f)) {
+            let _ = h.set_modified(std::time::UNIX_EPOCH + std::time::Duration::from_secs(1_600_000_000));
+        }
+    }
     files
 }
 
@@ -828,8 +837,16 @@ fn e2e_case(sink: &mut Sink, rng: &mut Rng, bin: &str, scratch: &str) {
             outs.insert(out);
             rcs.insert(rc);
         }
+        // … and with the SLOC cache: a cold run, then warm ones (same command without --no-sloc-cache)
+        for _ in 0..3 {
+            let ar: Vec<String> = with(&["--format", fmt]).into_iter().filter(|a| a != "--no-sloc-cache").collect();
+            let ar: Vec<&str> = ar.iter().map(String::as_str).collect();
+            let (rc, out, _) = p.run(&ar, &[("RAYON_NUM_THREADS", "2")]);
+            outs.insert(out);
+            rcs.insert(rc);
+        }
         if outs.len() > 1 {
-            problems.push(format!("--format {fmt} gives {} different outputs for the same project", outs.len()));
+            problems.push(format!("--format {fmt} gives {} different outputs for the same project (runs with 1-16 threads, without the cache, with a cold and with a warm cache)", outs.len()));
         }
         if rcs.len() > 1 || rcs.iter().next() != Some(&rc0) {
             problems.push(format!("--format {fmt} changes the exit status: {rcs:?} vs {rc0}"));
